@@ -3,9 +3,9 @@
 SPECIFICATION GenSpec
 CONSTANTS
   Fams = {"take", "slice", "shuffle", "riffle", "reservoir", "ident", "where", "where3", "sort"}
-  MaxN = 5
+  MaxN = 6
   MaxP = 6
-  MaxSeed = 7
+  MaxSeed = 15
   MaxSpacing = 3
   WhereK = 6
   WhereL = 3
